@@ -11,6 +11,7 @@ import (
 
 	"github.com/lyraproj/pcore/px"
 	"github.com/lyraproj/pcore/utils"
+	"github.com/lyraproj/pcore/verifhook"
 )
 
 type (
@@ -769,6 +770,7 @@ func (av *Array) privateDetailedType() px.Type {
 		} else {
 			types := make([]px.Type, len(av.elements))
 			av.detailedType = NewTupleType(types, nil)
+			verifhook.Point("array.detailed.published")
 			for idx := range types {
 				types[idx] = DefaultAnyType()
 			}
@@ -787,6 +789,7 @@ func (av *Array) privateReducedType() *ArrayType {
 			av.reducedType = EmptyArrayType()
 		} else {
 			av.reducedType = NewArrayType(DefaultAnyType(), NewIntegerType(int64(top), int64(top)))
+			verifhook.Point("array.reduced.published")
 			elemType := av.elements[0].PType()
 			for idx := 1; idx < top; idx++ {
 				elemType = commonType(elemType, av.elements[idx].PType())
